@@ -374,6 +374,63 @@ BP('C20', 'rf3-c20-3', 'rf3-c20-3.diff',
 BP('C20', 'rf3-c20-4', 'rf3-c20-4.diff',
    'independent refactoring focused on the code the second-round rules anchor in: SignerCertifierService::get_beacon_to_sign (the only callee of SignerRunner::get_beacon_to_sign): the `if list.is_empty() { Ok(None) } else { let t = list[0].clone(); Ok(Some(BeaconToSign::new(..))) }` shape is replaced by taking the first element of t')
 
+BP('C04', 'rf3-c04-1', 'rf3-c04-1.diff',
+   'independent refactoring focused on the code the second-round rules anchor in: ProtocolMessagePartKey: the key -> canonical name table is extracted from the Display impl into a new private `const fn as_str(&self) -> &`static str`; Display::fmt now just does `f.write_str(self.as_str())`. ProtocolMessage::compute_legacy_digest_byte')
+BP('C04', 'rf3-c04-2', 'rf3-c04-2.diff',
+   'independent refactoring focused on the code the second-round rules anchor in: CertificateMetadata::compute_hash: the two duplicated `date.timestamp_nanos_opt().unwrap_or_default().to_be_bytes()` expressions are extracted into a new private free function `timestamp_nanos_be_bytes(&DateTime<Utc>) -> [u8; 8]` (written as an explici')
+BP('C04', 'rf3-c04-3', 'rf3-c04-3.diff',
+   'independent refactoring focused on the code the second-round rules anchor in: TryFrom<Certificate> for CertificateMessage: the inline `match certificate.signature { .. }` that produced the `(multi_signature, genesis_signature)` tuple and, under future_snark, assigned a `let mut genesis_schnorr_signature` as a side effect, is mov')
+BP('C04', 'rf3-c04-4', 'rf3-c04-4.diff',
+   'independent refactoring focused on the code the second-round rules anchor in: TryFrom<CertificateMessage> for Certificate: (a) parameter renamed certificate_message -> message; (b) the metadata part is destructured with an exhaustive `let CertificateMetadataMessagePart { .. } = message.metadata;` pattern and rebuilt with field-i')
+BP('C05', 'rf3-c05-1', 'rf3-c05-1.diff',
+   'independent refactoring focused on the code the second-round rules anchor in: MKMapProof deserialization (internal/mithril-merkle-tree/src/merkle_map.rs): the nesting bound of `impl Deserialize for MKMapProof` is reshaped. The constant MAX_NESTED_LEVELS, the thread local counter NESTED_LEVELS and the drop guard (renamed NestedLe')
+BP('C05', 'rf3-c05-2', 'rf3-c05-2.diff',
+   'independent refactoring focused on the code the second-round rules anchor in: MerkleBatchPath::from_bytes_legacy (mithril-stm/src/membership_commitment/merkle_tree/path.rs): the repeated `slice 8 bytes, big endian u64, convert to usize` step (used for the two length prefixes and for each index) is extracted into a new private fr')
+BP('C05', 'rf3-c05-3', 'rf3-c05-3.diff',
+   'independent refactoring focused on the code the second-round rules anchor in: blst_error_to_stm_error (mithril-stm/src/signature_scheme/bls_multi_signature/error.rs): the `match e { .. }` with nested `if let Some(..) { return Err(..) }` / if-else blocks and six separate `Err(anyhow!(..))` sites is flattened into a single `match ')
+BP('C05', 'rf3-c05-4', 'rf3-c05-4.diff',
+   'independent refactoring focused on the code the second-round rules anchor in: BlsSignature::from_bytes (signature.rs) and BlsVerificationKey::from_bytes (verification_key.rs) in mithril-stm/src/signature_scheme/bls_multi_signature/: the length check `bytes.get(..N).ok_or(SerializationError)?` that shadowed `bytes` is rewritten a')
+BP('C07', 'rf3-c07-1', 'rf3-c07-1.diff',
+   'independent refactoring focused on the code the second-round rules anchor in: KesVerifierStandard::verify: the computation of the tolerance window (announced KES evolutions -1 .. +1, upper bound capped at 63) is extracted into a new private associated function `accepted_kes_evolutions` returning a RangeInclusive<u64> (with the m')
+BP('C07', 'rf3-c07-2', 'rf3-c07-2.diff',
+   'independent refactoring focused on the code the second-round rules anchor in: KeyRegWrapper::register is split: the whole `if let Some(opcert)` arm (KES-evolutions presence check, KES signature verification of the concatenation key and, under `future_snark`, of the SNARK key, then derivation of the bech32 pool id from the cold k')
+BP('C07', 'rf3-c07-3', 'rf3-c07-3.diff',
+   'independent refactoring focused on the code the second-round rules anchor in: The private method `KeyRegWrapper::verify_kes_signature(&self, message, kes_sig, opcert, kes_evolutions)` becomes a private free function of the same module, `verify_certified_kes_signature(kes_verifier: &dyn KesVerifier, opcert, kes_evolutions, messag')
+BP('C07', 'rf3-c07-4', 'rf3-c07-4.diff',
+   'independent refactoring focused on the code the second-round rules anchor in: MithrilSignerRegistrationVerifier::verify (aggregator) is cleaned up: (a) the computation of the KES evolutions (current KES period from the chain observer, defaulting to 0, minus the start KES period of the signer`s operational certificate; None witho')
+BP('C10', 'rf3-c10-1', 'rf3-c10-1.diff',
+   'independent refactoring focused on the code the second-round rules anchor in: download_and_verify_digests: the inline iterator chain that restricts the served name->digest map to the immutable files certified by the beacon (clone + into_iter + filter(match ImmutableFile::new ...) + collect) is extracted into a new private associ')
+BP('C10', 'rf3-c10-2', 'rf3-c10-2.diff',
+   'independent refactoring focused on the code the second-round rules anchor in: The certificate binding check `InternalArtifactProver::check_merkle_root_is_signed_by_certificate(certificate, &merkle_root)` (private associated function) becomes a private module-level free function `check_merkle_tree_is_signed_by_certificate(&merkle')
+BP('C10', 'rf3-c10-3', 'rf3-c10-3.diff',
+   'independent refactoring focused on the code the second-round rules anchor in: verify_cardano_database: the accept/reject decision at the end of the function is reshaped. The let-chain `if let Ok(ref merkle_proof) = proof_result && missing.is_empty() && tampered.is_empty() && non_verifiable.is_empty() { verify; return Ok(merkle_p')
+BP('C10', 'rf3-c10-4', 'rf3-c10-4.diff',
+   'independent refactoring focused on the code the second-round rules anchor in: InternalArtifactProver::new now builds the `CardanoImmutableDigester::new(None, logger.clone())` once and stores it in a new private field `immutable_digester`, instead of verify_cardano_database constructing a fresh digester from `self.logger.clone()`')
+BP('C11', 'rf3-c11-1', 'rf3-c11-1.diff',
+   'independent refactoring focused on the code the second-round rules anchor in: mithril-common signable_builder/cardano_stake_distribution.rs: the private tuple struct StakeDistributionEntry(String, u64) becomes a struct with named fields {pool_id, stake: Stake}; the leaf encoding (pool id immediately followed by the decimal stake')
+BP('C11', 'rf3-c11-2', 'rf3-c11-2.diff',
+   'independent refactoring focused on the code the second-round rules anchor in: mithril-common messages/cardano_transactions_proof.rs: CardanoTransactionsProofsMessage::verify is split in two. The per-part work (convert the message part into a CardanoTransactionsSetProof, verify it, compute its hex Merkle root) is extracted into a')
+BP('C11', 'rf3-c11-3', 'rf3-c11-3.diff',
+   'independent refactoring focused on the code the second-round rules anchor in: mithril-client src/message.rs: in MessageBuilder::compute_cardano_stake_distribution_message the Merkle-root computation (clone the stake distribution, build the Merkle tree with CardanoStakeDistributionSignableBuilder::compute_merkle_tree_from_stake_d')
+BP('C11', 'rf3-c11-4', 'rf3-c11-4.diff',
+   'independent refactoring focused on the code the second-round rules anchor in: mithril-common entities/cardano_transactions_set_proof.rs: CardanoTransactionsSetProof::verify (direct callee of CardanoTransactionsProofsMessage::verify) replaces the `for hash in &self.transactions_hashes { self.transactions_proof.contains(&hash.to_o')
+BP('C15', 'rf3-c15-1', 'rf3-c15-1.diff',
+   'independent refactoring focused on the code the second-round rules anchor in: certifier_service.rs: the two trailing persistence steps of MithrilCertifierService::create_certificate (certificate_repository.create_certificate, then OpenMessageRecord conversion + is_certified=true + open_message_repository.update_open_message) are')
+BP('C15', 'rf3-c15-2', 'rf3-c15-2.diff',
+   'independent refactoring focused on the code the second-round rules anchor in: certifier_service.rs: the pre-conditions at the head of MithrilCertifierService::create_certificate (open message found / not already certified / not expired) are moved into a new private helper get_certifiable_open_message_record() that returns the Op')
+BP('C15', 'rf3-c15-3', 'rf3-c15-3.diff',
+   'independent refactoring focused on the code the second-round rules anchor in: state_machine.rs: AggregatorRuntime::transition_from_signing_to_ready_multisignature is rewritten with explicit early returns: `create_certificate(..).await?.ok_or_else(|| KeepState{..})?` becomes `let Some(certificate) = .. .await? else { return Err(R')
+BP('C15', 'rf3-c15-4', 'rf3-c15-4.diff',
+   'independent refactoring focused on the code the second-round rules anchor in: Epoch-initialisation path. state_machine.rs: the conditional runner.precompute_epoch_data() step is moved from run_common_idle_transition_tasks (caller) to the end of execute_epoch_initialization_tasks (callee), which now receives last_genesis_certific')
+BP('C17', 'rf3-c17-1', 'rf3-c17-1.diff',
+   'independent refactoring focused on the code the second-round rules anchor in: SignedEntityConfig::time_point_to_signed_entity: the two arms that need a signing configuration (CardanoTransactions, CardanoBlocksTransactions) are extracted into two new private methods (time_point_to_cardano_transactions / time_point_to_cardano_bloc')
+BP('C17', 'rf3-c17-2', 'rf3-c17-2.diff',
+   'independent refactoring focused on the code the second-round rules anchor in: CardanoTransactionsSigningConfig::compute_block_number_to_be_signed: the adjustment of the step (round down to the start of its block range, floor at BlockRange::LENGTH) is extracted into a new private method `block_range_aligned_step`; inside it `std:')
+BP('C17', 'rf3-c17-3', 'rf3-c17-3.diff',
+   'independent refactoring focused on the code the second-round rules anchor in: Shared private formula of signed_entity_config.rs: the free function `compute_block_number_to_be_signed(block_number, security_parameter, step)` is renamed `highest_step_multiple_behind_security_margin(tip_block_number, step, security_parameter)` (para')
+BP('C17', 'rf3-c17-4', 'rf3-c17-4.diff',
+   'independent refactoring focused on the code the second-round rules anchor in: The shared private free function `compute_block_number_to_be_signed(block_number, security_parameter, step)` is inlined into its two only callers and deleted. CardanoBlocksTransactionsSigningConfig::compute_block_number_to_be_signed now computes `non_z')
+
 
 # ---- the independent refactorings of one property applied TOGETHER (interactions between rewritten helpers)
 def _combos():
